@@ -378,6 +378,8 @@ theorem main0Match_rel {f : F} (hf : FRel R f) (fuel : Nat) (cfg : Cfg) (scope :
   | raise e =>
     simp only
     split
+    · exact hleak
+    split
     · generalize s2.exit = ce at hexit
       obtain ⟨b, s3⟩ := ce
       cases b with
